@@ -100,6 +100,9 @@ struct W {
     v6: bool,
     /// the ICMP socket is bound to UDP port 6000 (errors about datagrams sent from that port) instead of the echo identifier
     icmp_udp: bool,
+    /// datagrams whose last two payload octets were chosen so that the UDP checksum computes to 0x0000 (it must then be
+    /// transmitted as 0xffff): datagram id -> the two octets
+    patch: HashMap<u32, [u8; 2]>,
 }
 
 impl W {
@@ -115,7 +118,13 @@ impl W {
             if payload.len() >= 4 {
                 let did = u32::from_be_bytes([payload[0], payload[1], payload[2], payload[3]]);
                 if self.sizes.contains_key(&did) {
-                    let exp = dgram_payload(did, payload.len());
+                    let mut exp = dgram_payload(did, payload.len());
+                    if let Some(pw) = self.patch.get(&did) {
+                        let n = exp.len();
+                        if n >= 2 {
+                            exp[n - 2..].copy_from_slice(pw);
+                        }
+                    }
                     let pd = payload.iter().zip(exp.iter()).position(|(a, b)| a != b).map(|x| x as i64).unwrap_or(-1);
                     v["did"] = json!(did);
                     v["pd"] = json!(if hdr_ok { pd } else { 0 });
@@ -191,11 +200,12 @@ impl W {
                         v["wf"] = json!(ip.wf && ip.hdr_csum_ok);
                         v["frag"] = json!(ip.mf || ip.frag_off > 0);
                         v["did"] = json!(-1);
-                        if let L4::Udp { sport, dport, payload, csum_ok, .. } = &ip.l4 {
+                        if let L4::Udp { sport, dport, payload, csum_ok, csum_zero, .. } = &ip.l4 {
                             v["l4"] = json!("udp");
                             v["sport"] = json!(sport);
                             v["dport"] = json!(dport);
                             v["cs"] = json!(csum_ok);
+                            v["cs0"] = json!(csum_zero);
                             v["size"] = json!(payload.len());
                         } else if let L4::Icmp4 { ty, code, csum_ok, .. } = &ip.l4 {
                             v["l4"] = json!("icmp");
@@ -254,11 +264,12 @@ impl W {
                     v["wf"] = json!(ip.wf);
                     v["frag"] = json!(ip.mf || ip.frag_off > 0);
                     v["did"] = json!(-1);
-                    if let L4::Udp { sport, dport, payload, csum_ok, .. } = &ip.l4 {
+                    if let L4::Udp { sport, dport, payload, csum_ok, csum_zero, .. } = &ip.l4 {
                         v["l4"] = json!("udp");
                         v["sport"] = json!(sport);
                         v["dport"] = json!(dport);
                         v["cs"] = json!(csum_ok);
+                        v["cs0"] = json!(csum_zero);
                         v["size"] = json!(payload.len());
                     } else if let L4::Icmp6 { ty, code, csum_ok, .. } = &ip.l4 {
                         v["l4"] = json!("icmp");
@@ -428,7 +439,7 @@ pub fn random(args: &Args) {
             scfg.push(json!({"port": 6004, "rxm": rxm, "rxp": rxp, "txm": 1, "txp": 64}));
             socks.push(SockCfg { h, kind: 3, port: 6004, rxm, rxp, txm: 1, txp: 64 });
         }
-        let mut w = W { iface, dev, sockets, socks, now: 0, sizes: HashMap::new(), v6, icmp_udp };
+        let mut w = W { iface, dev, sockets, socks, now: 0, sizes: HashMap::new(), v6, icmp_udp, patch: HashMap::new() };
         // behaviour of the virtual stations
         // (ordered map: iteration order feeds random picks, and runs must be reproducible from (seed, run))
         let mut arp_delay: std::collections::BTreeMap<u8, i64> = std::collections::BTreeMap::new(); // last octet -> delay in ms (-1: never answers)
@@ -514,7 +525,29 @@ pub fn random(args: &Args) {
                 };
                 let did = next_did;
                 w.sizes.insert(did, size);
-                let data = dgram_payload(did, size - over);
+                let mut data = dgram_payload(did, size - over);
+                // now and then a UDP datagram whose checksum computes to zero: the field must then carry 0xffff
+                if w.socks[k].kind == 0 && data.len() >= 6 && data.len() % 2 == 0 && rng.chance(12) {
+                    let n = data.len();
+                    data[n - 2] = 0;
+                    data[n - 1] = 0;
+                    let dg = udp_datagram(6000 + k as u16, 9000 + k as u16, &data);
+                    let mut hdr0 = dg.clone();
+                    hdr0[6] = 0;
+                    hdr0[7] = 0;
+                    let ps = if v6 {
+                        pseudo6(&a6(MY_IP), &a6(dst), 17, hdr0.len())
+                    } else {
+                        let me = if p2p && dst == P2P_PEER { P2P_ME } else { MY_IP };
+                        pseudo4(&me, &dst, 17, hdr0.len())
+                    };
+                    // the one's complement sum without the free word is s: the word !s makes the total 0xffff, the checksum 0
+                    let s0 = !csum_fold(csum_add(ps, &hdr0));
+                    let wd = (!s0).to_be_bytes();
+                    data[n - 2] = wd[0];
+                    data[n - 1] = wd[1];
+                    w.patch.insert(did, wd);
+                }
                 let h = w.socks[k].h;
                 let (err, dport) = match w.socks[k].kind {
                     0 => {
